@@ -8,6 +8,19 @@ VF_NOTE = ("Trusted: Coq kernel, extraction, harness/vf.c (page table and refere
            "The byte-level page search/bisection is abstracted to its result on the page table (validated by the tie on every run, not proved). "
            "Print Assumptions: closed under the global context.")
 CHECKS = {
+ "C06": {
+  "category": "proof",
+  "text": "PARTIAL. Proved: (alignment) for ALL block-size sequences and chunkings the decoder has, after the packets emitted so far, returned exactly the input position of "
+          "the centre of the last block - output sample i is input sample i; (channel order) residue bundling returns every vector to the channel it came from and leaves "
+          "the others untouched; (window) the Vorbis window slope is power complementary, w(a)^2 + w(pi/2-a)^2 = 1 (reals). NOT decided by proof: finiteness, peak factor and "
+          "the error-vs-quality bound concern the floating-point psychoacoustic encoder; they are measured per run on the implementation over a parametrised signal family "
+          "(per-channel distinct multi-tones, sweeps, low-passed noise, click trains, tone bursts; 1-8 channels, 8-96 kHz, 7 qualities + managed): cross-correlation peak at "
+          "lag 0, each output channel correlates most with its own input, finite, peak <= 4x, SNR above a quality-dependent floor that rises with quality.",
+  "note": "Trusted: Coq kernel; standard-library real-number axioms (ClassicalDedekindReals.sig_forall_dec, sig_not_dec, functional_extensionality_dep) under the window theorem "
+          "only; harness/c06.c. The LFE channel of 5.1 set-ups is low-passed by design and exempt from the wide-band alignment/quality measurements. The SNR floors are "
+          "calibrated ~10 dB below the unchanged encoder: a change that degrades quality by less is not detected.",
+  "technique": "Coq proof (alignment by the encoder/decoder automata, bundling lemmas, window identity over the reals) + measured alignment/permutation/peak/SNR on the implementation",
+ },
  "C01": {
   "category": "proof",
   "text": "PARTIAL for sample values, proof for counts and the discrete algorithms. The specification-level decoder is an executable Coq model written from the "
